@@ -212,11 +212,22 @@ void GPIO_ICACHE_FLASH supla_esp_gpio_rs_check_motor(
 
 #define RS_DIRECTION_NONE 0
 #define RS_DIRECTION_UP 2
+#ifdef SUPLA_VERIF_HOOKS
+// Observation hooks for the /verif harness (no effect on behaviour).
+void supla_verif_hook_rs_set_relay(supla_roller_shutter_cfg_t *rs_cfg,
+                                   uint8 value, uint8 cancel_task,
+                                   uint8 stop_delay);
+void supla_verif_hook_rs_trigger_fired(supla_roller_shutter_cfg_t *rs_cfg);
+#endif /*SUPLA_VERIF_HOOKS*/
+
 #define RS_DIRECTION_DOWN 1
 
 void GPIO_ICACHE_FLASH supla_esp_gpio_rs_set_relay_delayed(void *timer_arg) {
   supla_roller_shutter_cfg_t *rs_cfg =
     ((supla_roller_shutter_cfg_t *)timer_arg);
+#ifdef SUPLA_VERIF_HOOKS
+  supla_verif_hook_rs_trigger_fired(rs_cfg);
+#endif /*SUPLA_VERIF_HOOKS*/
   if (rs_cfg->delayed_trigger.autoCal_request) {
     rs_cfg->autoCal_button_request = true;
     rs_cfg->delayed_trigger.autoCal_request = false;
@@ -232,6 +243,10 @@ supla_esp_gpio_rs_set_relay(supla_roller_shutter_cfg_t *rs_cfg, uint8 value,
   if (rs_cfg == NULL) {
     return;
   }
+
+#ifdef SUPLA_VERIF_HOOKS
+  supla_verif_hook_rs_set_relay(rs_cfg, value, cancel_task, stop_delay);
+#endif /*SUPLA_VERIF_HOOKS*/
 
   if (!rs_cfg->autoCal_button_request) {
     if (rs_cfg->autoCal_step > 0) {
